@@ -12,12 +12,13 @@ Property theorems only (lemmas: Lemmas/ParserRefine*.lean).
 import VaxisModel.Lemmas.ParserRefineRun
 import VaxisModel.Lemmas.ParserCodec
 import VaxisModel.Lemmas.ParserUtf8Spec
+import VaxisModel.Lemmas.ParserReadExact
 import VaxisModel.Props.C02Text
 
 namespace VaxisModel.Props.C02Refine
 open VaxisModel.Model.ParserTable VaxisModel.Model.Parser VaxisModel.Model.ParserIO VaxisModel.Model.ParserUtf8
 open VaxisModel.Lemmas.ParserRefine VaxisModel.Lemmas.ParserRefineCheck VaxisModel.Lemmas.ParserRefineConf VaxisModel.Lemmas.ParserRefineStep VaxisModel.Lemmas.ParserRefineRun
-open VaxisModel.Lemmas.ParserRead VaxisModel.Lemmas.ParserCodec
+open VaxisModel.Lemmas.ParserRead VaxisModel.Lemmas.ParserCodec VaxisModel.Lemmas.ParserReadExact
 
 /-- What the Spec prescribes for a rune stream under the deviations `d`: the items that must be
     delivered, then those of the control string still open at the end of input. -/
@@ -116,6 +117,25 @@ theorem model_refines_spec_bytes (cl : Nat → Nat) (chunks : List (List UInt8))
       (specItems devAll (Spec.VT500.decode (streamOf chunks))).map specSeq ++ [.eof] := by
   rw [decoder_is_spec]
   exact model_refines_spec_partial cl chunks hR
+
+/-- **Inside the F102d region too — exactly.**  With an oracle that only never joins a C0 control
+    (uniseg: GB4/GB5; invalid bytes may be joined, as after a Prepend character), every byte stream
+    and every read splitting delivers exactly the Spec's items for a rune list `rs` that is the
+    decoded stream position by position, except that an invalid byte may read as U+FFFD (`AltList`):
+    the alteration of F102d is the only one, whatever surrounds it (text, sequences, strings). -/
+theorem model_refines_spec_exact (cl : Nat → Nat) (chunks : List (List UInt8))
+    (hR : RespectsC0 cl 0 (units (streamOf chunks))) :
+    ∃ rs : List Nat, AltList rs (units (streamOf chunks)) ∧
+      noErr (flat (runChunks handTable cl (natChunks chunks))) = (specItems devAll rs).map specSeq ++ [.eof] := by
+  obtain ⟨rs, h1, h2⟩ := runChunks_flat_exact cl (natChunks chunks) hR
+  exact ⟨rs, h2, by rw [h1]; exact runes_refine_spec rs⟩
+
+-- the oracle of the F102d witness is admitted here (it joins the invalid byte FF to U+0600) …
+example : RespectsC0 (fun p => if p = 0 then 2 else 1) 0 (units [0xD8, 0x80, 0xFF]) := by decide
+-- … and a stream without invalid bytes leaves no freedom: `rs` is the decoded stream
+example (rs : List Nat) (h : AltList rs (units [0x61, 0xC3, 0xA9, 0x1B, 0x5B, 0x6D])) :
+    rs = decodeRunes [0x61, 0xC3, 0xA9, 0x1B, 0x5B, 0x6D] :=
+  h.eq_of_valid (by decide)
 
 /-- The full statement: the Spec proper (`Dev.none`), any oracle.  False of the code (F102, F102c,
     F102d: `Witness/F102.lean`). -/
